@@ -60,6 +60,9 @@ Inductive beh :=
 | Garbage                   (* bytes that are not HTTP *)
 | EmptyUri                  (* 200 with a JSON body instead of an upgrade *)
 | AcceptThenDrop (k : nat)  (* upgrade, k messages each way, then the server drops *)
+| AcceptThenDropW (k : nat) (* as AcceptThenDrop, but the loss is noticed by the WRITE loop first: the read
+                               goroutine is parked on r.In (nobody consumes it) while the client keeps
+                               sending, so a WriteMessage fails before any ReadMessage does *)
 | AcceptThenHang (k : nat)  (* upgrade, k messages each way, then the server goes silent: it keeps the
                                TCP connection but neither sends nor answers (not even a close frame) *)
 | Hang.                     (* request read, never answered: the handshake times out *)
@@ -82,9 +85,26 @@ Inductive outcome :=
 | OWsFail                   (* websocket dial returned an error *)
 | OConnected (k : nat).     (* established; k messages passed, then it ended: Dial returns nil *)
 
+(* How an established connection ends inside Dial, and what Dial then returns.  readClosed: "err = nil";
+   a failed WriteMessage is assigned to a variable [err] declared with := INSIDE the case, which shadows
+   the function's err (still the nil left by DialContext); ctx.Done() likewise.  So Dial returns nil in
+   all three cases - which is the only sign of "it had been established" that the two loops look at. *)
+Inductive ender := EReader | EWriter | ECancel.
+Definition write_err_is_shadowed : bool := true.
+Definition dial_returns_error (e : ender) : bool :=
+  match e with EWriter => negb write_err_is_shadowed | _ => false end.
+
 (* Dial: Some k = established and later ended (returns nil), None = error *)
 Definition ws_result (b : beh) : option nat :=
-  match b with AcceptThenDrop k | AcceptThenHang k => Some k | _ => None end.
+  match b with
+  | AcceptThenDrop k | AcceptThenHang k => Some k
+  | AcceptThenDropW k => if dial_returns_error EWriter then None else Some k
+  | _ => None
+  end.
+
+(* the same drop, noticed by the writer instead of the reader *)
+Definition to_writer (b : beh) : beh :=
+  match b with AcceptThenDrop k => AcceptThenDropW k | _ => b end.
 
 (* the server never ends the connection by itself: Dial sits in its writer loop until ctx.Done() *)
 Definition holds (b : beh) : bool :=
